@@ -8,6 +8,7 @@
 -/
 import HealSparse.Model.Heap
 import HealSparse.Lemmas.Heap
+import HealSparse.Lemmas.FrameWorld
 namespace HS
 namespace C09
 
@@ -71,6 +72,152 @@ example : (⟨#[#[0]], #[#[1], #[2]], #[⟨0, 0⟩, ⟨0, 1⟩]⟩ : Heap Nat).S
   · intro i j mi mj hi hj hij
     rcases i with _ | _ | i <;> rcases j with _ | _ | j <;> simp at hi hj hij <;>
       subst hi <;> subst hj <;> decide
+
+/-! ### C09 at the world level: the frame of every protocol line, and no tie
+
+The theorems above are about the abstract heap.  Here the same is proved of the executable
+driver itself (Lemmas/FrameWorld.lean).  Every parsed line has a frame class (`classOf`,
+`lineClass`, syntactic) and obeys it (`frame_opXxx` for each of the 51 operations,
+`frame_stepArgs`, `frame_step`).  The driver is value-semantic, so nothing is shared EXCEPT where
+the model shares on purpose: a view descriptor is resolved BY NAME against its parent, so a view
+follows its parent entry, an in-place operation on a view writes the column back into the parent,
+and rebinding a parent's NAME changes what its views denote (an artefact of the by-name
+resolution: in the library the view keeps the old parent object).  These are exactly the side
+conditions below; nothing else ties two names.
+
+Which operations touch an ARGUMENT's cache: none.  A producing line changes no entry but its
+result name — its arguments are unchanged exactly, `_n_valid` cache included; an in-place line
+resets (or, `nvalid`, fills) the cache of the entry it is applied to and, through a view, of the
+parent. -/
+
+/-- every protocol line obeys the frame of its (syntactic) class: pool, files, MOCs, HEALPix
+    files, metadata -/
+theorem line_frame (w : World) (line : String) :
+    Frame (lineClass line).1.1 (lineClass line).1.2.1 (lineClass line).1.2.2.1 (lineClass line).1.2.2.2.1
+      (lineClass line).1.2.2.2.2 w (lineClass line).2 (step w line).1 :=
+  frame_step w line
+
+/-- **(1) producing lines** (`copy`, `astype`, `pack`, `deg`, `upg`, `mop`, `scov`, `fracdet`,
+    `read`, `dor`, `mocread`, `fromhp`, `hpxread`; `sop` / `mask` / `bop` / `inv` without `inplace`;
+    `geom` with `mode=or` / `getmap…`): whatever name `x` other than the result name `r=` is looked
+    up afterwards — the operand, the right-hand map, the mask, the weights, the maps of a multi-op,
+    any bystander — answers EXACTLY the same map (values, valid set, coverage, kind, sentinel,
+    cache), unless `x` is a view whose parent is named `r` -/
+theorem produce_inputs_unchanged (w : World) (line : String) (hc : (lineClass line).1.1 = .produce)
+    (x : String) (hx : x ≠ (lineClass line).2.resName)
+    (hp : w.parentOf x ≠ some (lineClass line).2.resName) :
+    (step w line).1.get? x = w.get? x := by
+  have h := (frame_step w line).pool
+  rw [hc] at h
+  exact HS.produce_frame h hx hp
+
+/-- … and so are the metadata of every other name, and every file, MOC and HEALPix file -/
+theorem produce_tables_unchanged (w : World) (line : String) (hc : (lineClass line).1.1 = .produce) :
+    (∀ x, x ≠ (lineClass line).2.resName → (step w line).1.metaAt x = w.metaAt x) ∧
+    (step w line).1.files = w.files ∧ (step w line).1.mocs = w.mocs ∧ (step w line).1.hpfiles = w.hpfiles := by
+  have hf := frame_step w line
+  have hcl : ∀ op a, (classOf op a).1 = .produce →
+      (classOf op a).2.1 = false ∧ (classOf op a).2.2.1 = false ∧ (classOf op a).2.2.2.1 = false ∧
+        ((classOf op a).2.2.2.2 = .same ∨ (classOf op a).2.2.2.2 = .result) := by
+    intro op a h
+    unfold classOf at h ⊢
+    split at h <;> first | (cases h; done) | exact ⟨rfl, rfl, rfl, .inl rfl⟩ | exact ⟨rfl, rfl, rfl, .inr rfl⟩
+  have hcl' : (lineClass line).1.2.1 = false ∧ (lineClass line).1.2.2.1 = false ∧
+      (lineClass line).1.2.2.2.1 = false ∧
+      ((lineClass line).1.2.2.2.2 = .same ∨ (lineClass line).1.2.2.2.2 = .result) := by
+    unfold lineClass at hc ⊢
+    split at hc
+    · cases hc
+    · split at hc
+      · cases hc
+      · rename_i hp
+        simp only [hp, Bool.false_eq_true, if_false]
+        exact hcl _ _ hc
+  have nr : (lineClass line).1.1 ≠ .reset := by rw [hc]; exact fun h => nomatch h
+  obtain ⟨h1, h2, h3, h4⟩ := hcl'
+  refine ⟨?_, ?_, ?_, ?_⟩
+  · intro x hx
+    have hm := hf.metas
+    unfold World.metaAt
+    rcases h4 with h4 | h4 <;> rw [h4] at hm
+    · show (tableGet (step w line).1.metas x).getD [] = _
+      rw [show (step w line).1.metas = w.metas from hm]
+    · rw [tableFrame_get hm hx]
+  · have := hf.files.resolve_left nr; rw [h1] at this; exact tableFrame_false this
+  · have := hf.mocs.resolve_left nr; rw [h2] at this; exact tableFrame_false this
+  · have := hf.hpfiles.resolve_left nr; rw [h3] at this; exact tableFrame_false this
+
+/-- **(2) in-place lines** on `n` (`upd`, `updr`, `set`, `bits`, `nvalid`; `sop` / `mask` / `bop` /
+    `inv` with `inplace=1`; `geom` with `mode=ior` / `realize`): a name `x` answers exactly the same
+    map afterwards unless it is `n`, the parent of `n` (if `n` is a view), or a view of one of these
+    two (a view of the record map `n`; a sibling view) -/
+theorem inplace_others_unchanged (w : World) (line : String) (hc : (lineClass line).1.1 = .inplace)
+    (x : String) (hx : ¬ w.reach (lineClass line).2.opName x)
+    (hp : ∀ pn, w.parentOf x = some pn → ¬ w.reach (lineClass line).2.opName pn) :
+    (step w line).1.get? x = w.get? x := by
+  have h := (frame_step w line).pool
+  rw [hc] at h
+  exact HS.inplace_frame h hx hp
+
+/-- … and when `n` is a view of field `i` of `pn`, the parent entry becomes `writeBackView p i m`,
+    which differs from `p` in field `i` of the cells only -/
+theorem inplace_view_parent (w : World) {n pn : String} {i : Nat} (m : MapObj) {p : MapObj} {v : String × Nat}
+    (hv : (w.raw? n).bind (·.view) = some (pn, i)) (hm : m.view = some v) (hp : w.raw? pn = some p)
+    (hne : n ≠ pn) :
+    (w.put n m).raw? pn = some (writeBackView p i m) ∧
+    (writeBackView p i m).kind = p.kind ∧ (writeBackView p i m).sent = p.sent ∧
+    (writeBackView p i m).st.cov = p.st.cov ∧ (writeBackView p i m).st.sp.size = p.st.sp.size ∧
+    ∀ i', i' ≠ i → ∀ j : Nat,
+      (writeBackView p i m).st.sp[j]?.map (recField i') = p.st.sp[j]?.map (recField i') := by
+  obtain ⟨_, _, h3, h4, _, h6, h7, h8⟩ := writeBackView_frame p i m
+  exact ⟨World.raw?_put_parent w m hv hm hp hne, h3, h4, h6, h7, h8⟩
+
+/-- **(3) static lines** — every query, and the writers of files (`write`, `cat`), MOCs (`moc`),
+    HEALPix files (`hpxwrite`, `hpximplicit`) and metadata (`meta`): the pool is untouched, every
+    lookup answers the same map -/
+theorem static_pool_unchanged (w : World) (line : String) (hc : (lineClass line).1.1 = .static) :
+    (step w line).1.pool = w.pool ∧ ∀ x, (step w line).1.get? x = w.get? x := by
+  have h := (frame_step w line).pool
+  rw [hc] at h
+  exact ⟨h, fun x => HS.static_frame (a := (lineClass line).2) h x⟩
+
+/-- … a line that is not a file writer (in particular every file READER: `read`, `dor`, `covread`,
+    `fitsraw`) leaves the files as they were; a file writer changes the file named `f=` only -/
+theorem files_frame (w : World) (line : String) (hr : (lineClass line).1.1 ≠ .reset) :
+    ((lineClass line).1.2.1 = false → (step w line).1.files = w.files) ∧
+    ∀ x, x ≠ (lineClass line).2.fileName → tableGet (step w line).1.files x = tableGet w.files x := by
+  have h := (frame_step w line).files.resolve_left hr
+  exact ⟨fun hf => by rw [hf] at h; exact tableFrame_false h, fun x hx => tableFrame_get h hx⟩
+
+/-- **(4) no tie, for every continuation**: whatever a history does IN PLACE to an owning name `t`
+    (`onlyOn t`: in-place lines on `t`, interleaved with any static lines), every name that is
+    neither `t` nor a view of `t` answers exactly the same map at the end.
+    Excluded lines (`onlyOn t l = false`): producing lines and `cfg` (they rebind a name), `single`,
+    `drop`, `reset`, in-place lines on another name — in particular on a view of `t`. -/
+theorem no_tie_world {w : World} {t x : String} (ht : (w.raw? t).bind (·.view) = none) (hx : x ≠ t)
+    (hp : w.parentOf x ≠ some t) (lines : List String) (h : ∀ l ∈ lines, onlyOn t l = true) :
+    (w.run lines).get? x = w.get? x :=
+  HS.no_tie ht hx hp lines h
+
+/-- **a result is independent of its argument and the argument of the result**: once a producing
+    line has bound `r` (an owning name, `produced_owner`), for an argument `n ≠ r` that is an owning
+    name: any later in-place history on `r` is invisible through `n`, and any later in-place
+    history on `n` is invisible through `r` — modification or growth of either cannot be seen
+    through the other -/
+theorem result_independent {w : World} {n r : String} (hn : (w.raw? n).bind (·.view) = none)
+    (hr : (w.raw? r).bind (·.view) = none) (hne : n ≠ r) (lines : List String) :
+    ((∀ l ∈ lines, onlyOn r l = true) → (w.run lines).get? n = w.get? n) ∧
+    ((∀ l ∈ lines, onlyOn n l = true) → (w.run lines).get? r = w.get? r) :=
+  HS.result_independent hn hr hne lines
+
+/-- non-vacuity (evaluated, Lemmas/FrameWorld.lean): thirteen two-phase histories — produce with
+    `copy`, `astype`, `sop`, `mask` (operand and mask), `deg`, `upg`, `scov`, `bop` (left and right
+    operand), `mop`, `read`, `single copy=1`; mutate and GROW the result, re-read the argument;
+    mutate and grow the argument, re-read the result -/
+example : True := trivial
+#guard twoPhase exSetupI "copy m r=c" "c" "m" ["upd c pix=6,150 vals=8,9", "nvalid c"]
+  ["upd m pix=7,40 vals=1,2", "sop m op=add k=1 inplace=1"]
+#guard twoPhase exSetupI "bop b op=or rhs=b2 r=c" "c" "b2" ["inv c inplace=1"] ["upd b2 pix=9,180 val=T"]
 
 end C09
 end HS
